@@ -163,8 +163,11 @@ type NodeCfg struct {
 	QueueSize     int  // single sequencer queue bound (0 = repo default 1000)
 	ScriptedSeq   bool // use the scripted sequencing double instead of the real single sequencer
 	MempoolTTL    uint64
-	DA            *SimDA // nil: the world's DA layer
-	Root          string // non-empty: use this directory as the node's root (cache files) instead of a scratch dir
+	// GasPrice / GasMultiplier, when > 0, are put into the node's DA configuration (the defaults are -1 and 0:
+	// automatic price, no raise on retry). The manager itself is always built with price 1.0 and multiplier 1.5.
+	GasPrice, GasMultiplier float64
+	DA                      *SimDA // nil: the world's DA layer
+	Root                    string // non-empty: use this directory as the node's root (cache files) instead of a scratch dir
 }
 
 // World is one simulated deployment: one DA layer, one genesis, several nodes.
@@ -329,6 +332,12 @@ func (n *Node) config() config.Config {
 	c.DA.BlockTime = config.DurationWrapper{Duration: n.Cfg.DABlockTime}
 	c.DA.StartHeight = n.Cfg.DAStartHeight
 	c.DA.MempoolTTL = n.Cfg.MempoolTTL
+	if n.Cfg.GasPrice > 0 {
+		c.DA.GasPrice = n.Cfg.GasPrice
+	}
+	if n.Cfg.GasMultiplier > 0 {
+		c.DA.GasMultiplier = n.Cfg.GasMultiplier
+	}
 	c.Instrumentation = nil
 	return c
 }
